@@ -409,6 +409,7 @@ def StepOK (st : MState) (op : Op) : Prop :=
   | .slot p s _ _, .live fc =>
     p ≠ 0 ∧ ((aGet fc.pa.indices ⟨s, p⟩).isSome ∨ ∃ s0, aGet fc.pa.blockSlots p = some s0 ∧ s0 ≤ s)
   | .block p r _ _ _, .live _ => p ≠ 0 ∧ r ≠ 0
+  | .att _ r s, .live _ => ¬ (r = 0 ∧ s = 0)
   | .justify _ _ f _, .live fc => f = fc.finalized
   | _, _ => True
 
@@ -500,6 +501,7 @@ def stepOKb (st : MState) (op : Op) : Bool :=
     decide (p ≠ 0) && ((aGet fc.pa.indices ⟨s, p⟩).isSome ||
       (match aGet fc.pa.blockSlots p with | some s0 => decide (s0 ≤ s) | none => false))
   | .block p r _ _ _, .live _ => decide (p ≠ 0) && decide (r ≠ 0)
+  | .att _ r s, .live _ => decide (¬ (r = 0 ∧ s = 0))
   | .justify _ _ f _, .live fc => decide (f = fc.finalized)
   | _, _ => true
 
@@ -528,6 +530,13 @@ theorem stepOKb_sound (st : MState) (op : Op) (h : stepOKb st op = true) : StepO
     | none => trivial
     | dead => trivial
     | live fc => simpa [stepOKb, StepOK] using h
+  | att v r s =>
+    cases st with
+    | none => trivial
+    | dead => trivial
+    | live fc =>
+      simp only [stepOKb, decide_eq_true_eq] at h
+      exact h
   | _ => cases st <;> trivial
 
 def admissibleB : MState → List Op → Bool
